@@ -17,7 +17,7 @@ THEOREMS = ["QExPy.C16_argmax", "QExPy.C16_walk_spec", "QExPy.C16_walk_edges",
             "QExPy.C16_cache_coherent_step", "QExPy.C16_cache_coherent", "QExPy.C16_read_spec",
             "QExPy.C16_read_after_history",
             "QExPy.C16_sim_changes_only", "QExPy.C16_new_sim_is_new", "QExPy.C16_mean_std_range",
-            "QExPy.C16_custom"]
+            "QExPy.C16_custom", "QExPy.C16_rejected_unchanged"]
 RULE = ("(a) unit level: find_mode_and_uncertainty on synthetic count lists (length 100 and other "
         "lengths; mass at the first/last bins, both ends, spikes, ties, zeros) x confidences "
         "{0.01,0.5,0.68,0.9,0.95,0.999,1.0} and random ones, vs the Lean walk and the decidable "
